@@ -48,12 +48,22 @@ Defined(prog, nm) == \E s \in SymDefs(prog) : s.name = nm
 \* ---- the statement level: what one statement hands to the writer -------------------------------------------
 \* asmpars.c / operator.c AddOp: value = sum, relocation list = left list then right list (nothing cancels: all "+")
 RefValue(prog, st) == st.add + FoldLeft(LAMBDA a, nm : a + Sym(prog, nm).value, 0, st.names)
-RefRelocs(prog, st) == FoldLeft(LAMBDA acc, nm : LET s == Sym(prog, nm) IN
-                                   IF s.kind = "ext" THEN Append(acc, nm) ELSE IF s.kind = "rel" THEN Append(acc, SegStartName) ELSE acc,
-                                <<>>, st.names)
+\* NAMED DEVIATION merge_same_sign_cancels: asmrelocs.c MergeRelocs removes a pair of entries with the same name when
+\* `(Add1 # Add2) # Add`, i.e. for an addition when both have the SAME sign: in ga+ga (or l1+l2 of a relocatable segment,
+\* both "+$$$") the two relocations annihilate each other instead of both being kept
+RelocOf(prog, nm) == LET sy == Sym(prog, nm) IN IF sy.kind = "ext" THEN <<nm>> ELSE IF sy.kind = "rel" THEN <<SegStartName>> ELSE <<>>
+MergeAdd(acc, one) ==            \* list1 = acc (left operand), list2 = one (right operand, at most one entry here)
+  IF one = <<>> THEN acc
+  ELSE LET H == {i \in 1..Len(acc) : acc[i] = one[1]} IN
+       IF H = {} THEN acc \o one
+       ELSE LET h == CHOOSE i \in H : \A j \in H : i <= j IN SubSeq(acc, 1, h - 1) \o SubSeq(acc, h + 1, Len(acc))
+RefRelocs(prog, st) == FoldLeft(LAMBDA acc, nm : MergeAdd(acc, RelocOf(prog, nm)), <<>>, st.names)
+RefRelocsAll(prog, st) == FoldLeft(LAMBDA acc, nm : acc \o RelocOf(prog, nm), <<>>, st.names)          \* what the expression means
 RefType(st) == IF st.w = 1 THEN TL8 ELSE TB16
 RefBytes(prog, st) == LET v == RefValue(prog, st) IN <<st.opc>> \o (IF st.w = 1 THEN <<v % 256>> ELSE <<(v \div 256) % 256, v % 256>>)
 RefPatches(prog, st, pc) == LET rl == RefRelocs(prog, st) IN [k \in 1..Len(rl) |-> [addr |-> pc + 1, name |-> rl[k], type |-> RefType(st)]]
+RefPatchesAll(prog, st, pc) == LET rl == RefRelocsAll(prog, st) IN [k \in 1..Len(rl) |-> [addr |-> pc + 1, name |-> rl[k], type |-> RefType(st)]]
+Cancels(prog) == \E i \in 1..Len(prog) : prog[i].op = "ref" /\ RefRelocs(prog, prog[i]) # RefRelocsAll(prog, prog[i])
 \* asmallg.c CodeEXPORT: plain value -> flags 0; exactly one "+$$$" -> RelFlag_Relative; an external symbol cannot be exported
 Exportable(prog, nm) == Defined(prog, nm) /\ Sym(prog, nm).kind # "ext"
 ExportEntry(prog, nm) == LET s == Sym(prog, nm) IN [name |-> nm, flags |-> IF s.kind = "rel" THEN RelFlagRelative ELSE 0, value |-> s.value]
@@ -75,11 +85,15 @@ WriteBytes(w, bytes, pc) ==
                  THEN [NewRecord(w, pc) EXCEPT !.split = @ \/ \E k \in 1..Len(w.patches) : w.patches[k].addr >= pc]
                  ELSE w           \* the queued patches of THIS chunk (addr >= pc) are written behind the record that just ended
        IN [w1 EXCEPT !.cur.data = @ \o bytes]
-Step(prog, w, i) ==
+\* first = TRUE: a pass that is followed by another one (symbols defined further down are still unknown: CodeEXPORT skips them)
+DefIdx(prog, nm) == LET S == {j \in 1..Len(prog) : prog[j].op \in {"label", "equ"} /\ prog[j].name = nm} IN
+                    IF S = {} THEN 0 ELSE CHOOSE j \in S : \A k \in S : j <= k
+Step(prog, w, i, first) ==
   LET st == prog[i]  pc == PcBefore(prog)[i] IN
   CASE st.op = "db"     -> WriteBytes(w, st.bytes, pc)
     [] st.op = "ref"    -> WriteBytes([w EXCEPT !.patches = @ \o RefPatches(prog, st, pc)], RefBytes(prog, st), pc)
-    [] st.op = "export" -> [w EXCEPT !.exports = @ \o [k \in 1..Len(st.names) |-> ExportEntry(prog, st.names[k])]]
+    [] st.op = "export" -> LET ns == SelectSeq(st.names, LAMBDA nm : ~first \/ DefIdx(prog, nm) < i) IN
+                           [w EXCEPT !.exports = @ \o [k \in 1..Len(ns) |-> ExportEntry(prog, ns[k])]]
     [] st.op = "org"    -> IF st.addr = pc THEN w ELSE NewRecord(w, st.addr)          \* CodeORG_Core: same address = no-op
     [] st.op = "res"    -> NewRecord(w, pc + st.n)
     [] st.op = "cpu"    -> NewRecord(w, pc)
@@ -89,9 +103,18 @@ Step(prog, w, i) ==
 EndPc(prog) == IF prog = <<>> THEN 0 ELSE LET n == Len(prog) pc == PcBefore(prog)[n] IN
                   IF prog[n].op = "org" THEN prog[n].addr ELSE pc + Size(prog[n])
 Close(w, pc) == LET w1 == NewRecord(w, pc) IN [w1 EXCEPT !.lost = w1.patches # <<>> \/ w1.exports # <<>>]    \* queues never written
-RECURSIVE WRunFrom(_, _, _)
-WRunFrom(prog, w, i) == IF i > Len(prog) THEN Close(w, EndPc(prog)) ELSE WRunFrom(prog, Step(prog, w, i), i + 1)
-Written(prog) == WRunFrom(prog, W0, 1)
+RECURSIVE WRunFrom(_, _, _, _)
+WRunFrom(prog, w, i, first) == IF i > Len(prog) THEN Close(w, EndPc(prog)) ELSE WRunFrom(prog, Step(prog, w, i, first), i + 1, first)
+\* the pass loop: these programs need a second pass exactly when a statement uses a symbol that is defined further down.
+\* The code file is written in EVERY pass (and overwritten by the next); NAMED DEVIATION export_queue_survives_pass:
+\* what a pass leaves in the queues (CloseFile with an empty open record) is still there when the next pass starts, and
+\* is written behind the first record that pass closes
+HasForward(prog) == \E i \in 1..Len(prog) : prog[i].op \in {"ref", "export"} /\ \E k \in 1..Len(prog[i].names) : DefIdx(prog, prog[i].names[k]) > i
+Pass1(prog) == WRunFrom(prog, W0, 1, TRUE)
+Leaks(prog) == HasForward(prog) /\ (Pass1(prog).exports # <<>> \/ Pass1(prog).patches # <<>>)
+Written(prog) == IF HasForward(prog)
+                 THEN WRunFrom(prog, [W0 EXCEPT !.exports = Pass1(prog).exports, !.patches = Pass1(prog).patches], 1, FALSE)
+                 ELSE WRunFrom(prog, W0, 1, FALSE)
 FileItems(prog) == Written(prog).out
 
 \* programs the assembler accepts without a diagnostic (the generators stay inside)
@@ -113,7 +136,7 @@ FileImage(items) == UNION {{[addr |-> items[r].start + j - 1, byte |-> items[r].
 \* every relocation of every reference, as a bag: [addr, name, type] -> number of occurrences
 StmtPatches(prog) ==
   LET pcs == PcBefore(prog) IN
-  FoldLeft(LAMBDA acc, i : IF prog[i].op = "ref" THEN acc \o RefPatches(prog, prog[i], pcs[i]) ELSE acc, <<>>, [i \in 1..Len(prog) |-> i])
+  FoldLeft(LAMBDA acc, i : IF prog[i].op = "ref" THEN acc \o RefPatchesAll(prog, prog[i], pcs[i]) ELSE acc, <<>>, [i \in 1..Len(prog) |-> i])
 FilePatches(items) == FoldLeft(LAMBDA acc, it : IF HasInfo(it) THEN acc \o InfoOf(it).patches ELSE acc, <<>>, items)
 StmtExports(prog) == FoldLeft(LAMBDA acc, i : IF prog[i].op = "export"
                                                THEN acc \o [k \in 1..Len(prog[i].names) |-> ExportEntry(prog, prog[i].names[k])] ELSE acc,
